@@ -145,6 +145,8 @@ type f44 struct {
 	mu    sync.Mutex
 	ops   []*op44
 	limit int
+
+	cancelParent context.CancelFunc
 }
 
 type op44 struct {
@@ -153,12 +155,20 @@ type op44 struct {
 	err       error
 	closing   bool // a call that closes the connection (its return marks "closed from now on")
 	write     bool
+	// entryGuarded: the call starts with `if Closed(c) { return ErrClosedConn }` (CloseWith, the write
+	// methods), so it reaches a close path only if the parent context was not cancelled before it began
+	entryGuarded bool
+	cancel       bool // cancellation of the parent context (no close path)
 }
 
 func new44(e *dualrun.Env, in []byte) *f44 {
 	base := &conn44{in: in}
-	conn, _ := NewMinecraftConn(context.Background(), base, proto.ServerBound, time.Second, time.Second, -1, nil)
-	f := &f44{e: e, base: base, mc: conn.(*minecraftConn), h: &handler44{name: "h1"}}
+	// the connection's context derives from a cancellable parent (in production the parent is the
+	// accepted connection's / the proxy's context); cancelling it makes Closed(c) true WITHOUT any close
+	// path having run
+	parent, cancel := context.WithCancel(context.Background())
+	conn, _ := NewMinecraftConn(parent, base, proto.ServerBound, time.Second, time.Second, -1, nil)
+	f := &f44{e: e, base: base, mc: conn.(*minecraftConn), h: &handler44{name: "h1"}, cancelParent: cancel}
 	f.mc.SetProtocol(version.Minecraft_1_21_4.Protocol)
 	f.mc.SetActiveSessionHandler(state.Play, f.h)
 	e.OnPoint(func() {
@@ -187,7 +197,12 @@ func (f *f44) closeUnknown() {
 	f.do("CloseUnknown", true, false, func() error { return CloseUnknown(f.mc) })
 }
 func (f *f44) closeWith() {
-	f.do("CloseWith", true, false, func() error { return CloseWith(f.mc, disconnectPacket44) })
+	f.do("CloseWith", true, false, func() error { return CloseWith(f.mc, disconnectPacket44) }).entryGuarded = true
+}
+
+// cancel cancels the parent context the connection was created with.
+func (f *f44) cancel() {
+	f.do("cancel(parent ctx)", false, false, func() error { f.cancelParent(); return nil }).cancel = true
 }
 func (f *f44) readLoop() {
 	f.do("readLoop", true, false, func() error { f.mc.startReadLoop(); return nil })
@@ -197,6 +212,7 @@ func (f *f44) readLoop() {
 func (f *f44) failingWrite() {
 	f.base.failWrites()
 	o := f.do("WritePacket(failing)", true, true, func() error { return f.mc.WritePacket(&packet.KeepAlive{RandomID: 1}) })
+	o.entryGuarded = true
 	if o.err == nil {
 		f.e.Fail("write-error-swallowed", "WritePacket on a connection whose writes fail returned nil")
 	}
@@ -226,8 +242,33 @@ func (f *f44) finish(expectClosed bool) {
 		if expectClosed && !closed {
 			f.e.Fail("not-closed", "every thread finished but the connection is not closed; %s", h)
 		}
-		if closed && n != 1 {
-			f.e.Fail("teardown-count", "connection closed, SessionHandler.Disconnected ran %d times, want exactly 1; %s", n, h)
+		// has a close path definitely run? (Close, CloseUnknown and the read loop's deferred close always
+		// reach closeKnown; entry-guarded calls only if the parent context was not yet cancelled when they began)
+		ranClose := ""
+		for _, o := range f.ops {
+			if !o.closing {
+				continue
+			}
+			definite := true
+			if o.entryGuarded {
+				for _, c := range f.ops {
+					if c.cancel && c.ret < o.call {
+						definite = false
+					}
+				}
+			}
+			if definite {
+				ranClose = o.kind
+			}
+		}
+		if ranClose != "" && n != 1 {
+			f.e.Fail("teardown-count", "a close path ran (%s), SessionHandler.Disconnected ran %d times, want exactly 1; %s", ranClose, n, h)
+		}
+		if ranClose != "" && f.base.closes != 1 {
+			f.e.Fail("underlying-close-count", "a close path ran (%s), the underlying net.Conn was closed %d times, want exactly 1; %s", ranClose, f.base.closes, h)
+		}
+		if ranClose == "" && closed && n > 1 {
+			f.e.Fail("teardown-count", "SessionHandler.Disconnected ran %d times; %s", n, h)
 		}
 		if !closed && n != 0 {
 			f.e.Fail("teardown-count", "connection open but SessionHandler.Disconnected ran %d times; %s", n, h)
@@ -309,6 +350,31 @@ func scenarios44() []dualrun.Scenario {
 			"a": func(f *f44) { f.close() },
 			"b": func(f *f44) { f.closeUnknown() },
 			"c": func(f *f44) { f.writes() }}),
+		// the parent context is cancelled (Closed(c) becomes true without any close path having run): the
+		// teardown must still happen, exactly once, as soon as a close path runs
+		mk("parent-cancelled-then-Close", U, U, nil, func(f *f44) { f.cancel() }, th{
+			"a": func(f *f44) { f.close(); f.writes() }}),
+		mk("parent-cancelled-then-readloop-EOF", U, U, nil, func(f *f44) { f.cancel() }, th{
+			"a": func(f *f44) { f.readLoop(); f.writes() }}),
+		mk("parent-cancelled-then-CloseUnknown-vs-Close", 3, U, nil, func(f *f44) { f.cancel() }, th{
+			"a": func(f *f44) { f.closeUnknown() },
+			"b": func(f *f44) { f.close(); f.writes() }}),
+		mk("parent-cancel-vs-Close", U, U, nil, nil, th{
+			"a": func(f *f44) { f.cancel() },
+			"b": func(f *f44) { f.close(); f.writes() }}),
+		mk("parent-cancel-vs-CloseWith", U, U, nil, nil, th{
+			"a": func(f *f44) { f.cancel() },
+			"b": func(f *f44) { f.closeWith(); f.writes() }}),
+		mk("parent-cancel-vs-failing-write", U, U, nil, nil, th{
+			"a": func(f *f44) { f.cancel() },
+			"b": func(f *f44) { f.failingWrite(); f.writes() }}),
+		mk("parent-cancel-vs-failing-write-then-readloop-EOF", 3, U, nil, nil, th{
+			"a": func(f *f44) { f.cancel() },
+			"b": func(f *f44) { f.failingWrite(); f.readLoop() }}),
+		mk("parent-cancel-vs-readloop-vs-CloseWith", 2, 3, keepAliveFrame(1), nil, th{
+			"a": func(f *f44) { f.cancel() },
+			"b": func(f *f44) { f.readLoop() },
+			"c": func(f *f44) { f.closeWith(); f.writes() }}),
 		// auto reading disabled: the read loop is parked and must be freed by the close
 		mk("parked-readloop-vs-Close", 3, U, nil, func(f *f44) { f.mc.SetAutoReading(false) }, th{
 			"a": func(f *f44) { f.readLoop() },
